@@ -117,7 +117,8 @@ def allowedSelfWriters : List String := [
 /-- the only import-time registrations -/
 def allowedModuleWrites : List String := ["mac:_pad_dispatch[1]", "mac:_pad_dispatch[2]", "mac:_pad_dispatch[3]"]
 
-/-- the deterministic public operations (and `wrap`, which must not modify its arguments) that must be present in the summary -/
+/-- the deterministic public operations (and `wrap`, which must not modify its arguments) that must be present in the summary;
+public names only: private helpers may be renamed, merged or split freely (every function that *is* in the summary is judged) -/
 def requiredFunctions : List String := [
   "aes.encrypt_aes_cbc", "aes.encrypt_aes_ecb", "aes.decrypt_aes_cbc", "aes.decrypt_aes_ecb",
   "des.encrypt_tdes_cbc", "des.encrypt_tdes_ecb", "des.decrypt_tdes_cbc", "des.decrypt_tdes_ecb",
@@ -128,9 +129,7 @@ def requiredFunctions : List String := [
   "pinblock.decode_pinblock_iso_0", "pinblock.decode_pinblock_iso_2", "pinblock.decode_pinblock_iso_3",
   "pinblock.decode_pin_field_iso_4", "pinblock.decipher_pinblock_iso_4",
   "tools.xor", "tools.odd_parity", "tr31.unwrap", "tr31.wrap", "tr31.KeyBlock.wrap", "tr31.KeyBlock.unwrap",
-  "tr31.Header.dump", "tr31.Header.__str__", "tr31.Blocks.dump",
-  "tr31.KeyBlock._b_derive", "tr31.KeyBlock._c_derive", "tr31.KeyBlock._d_derive",
-  "tr31.KeyBlock._b_generate_mac", "tr31.KeyBlock._c_generate_mac", "tr31.KeyBlock._d_generate_mac"]
+  "tr31.Header.dump", "tr31.Header.__str__", "tr31.Blocks.dump"]
 
 def fnClean (f : FnEffect) : Bool :=
   f.sharedWrites.isEmpty && f.argWrites.isEmpty && f.unknown.isEmpty &&
